@@ -30,12 +30,13 @@ RULE = ('distinct (x, y) protocol lines with x and y spelled differently on whic
         '(pairs of identical atoms are not counted)')
 TRUSTED = ['correspondence harness (pv.engine, pv.proto) and the generators / decoder of pv.props.c14',
            'Lean driver parser (PygModel/Basic.lean, EqDriver.lean)']
-ASSUMPTIONS = ['CPython == on None/bool/int/float/str/datetime/date and on lists/tuples/dicts of them is the reference function Cell.pyEq / pyEqV (sampled by the pyeq op)',
-               'numpy scalars, pd.Timestamp and pd.Timedelta are == to the python values the wire format identifies them with; np.datetime64 (units D..ns) / np.timedelta64 (units W..ns) are the Timestamp / Timedelta of their instant / duration (that is the repair C14-F6, not an assumption about numpy: numpy own == casts units); an np.timedelta64 in years / months is no Timedelta: it equals only year / month durations of as many months (repair C14-F9; numpy: 12 months to the year, no common unit with days); pd.NaT is one object',
+ASSUMPTIONS = ['python == of two collections.OrderedDicts is order-sensitive, eq is not (an OrderedDict is dict class 3: never eq to a plain dict, items compared key-sorted; theorem eq_ordered_dict_ignores_order): the clause "agrees with == on plain values" is read for the exact class dict and the == law is not applied to class 3',
+               'CPython == on None/bool/int/float/str/datetime/date and on lists/tuples/dicts of them is the reference function Cell.pyEq / pyEqV (sampled by the pyeq op)',
+               'numpy scalars, pd.Timestamp and pd.Timedelta are == to the python values the wire format identifies them with; np.datetime64 (units D..ns) / np.timedelta64 (units W..ns) are the Timestamp / Timedelta of their instant / duration (that is the repair C14-F6, not an assumption about numpy: numpy own == casts units); an np.timedelta64 in years / months is no Timedelta: it equals only year / month durations of as many months (repair C14-F9; numpy: 12 months to the year, no common unit with days); an np.datetime64 in ps / fs / as is no Timestamp (pandas would truncate it): it equals only the ps / fs / as datetime64 of the same instant (repair C14-F10; numpy == between two of them is exact); pd.NaT is one object',
                'np.vectorize(eq) visits every cell of two equally shaped arrays; list(pd.Index) yields the labels as the python / pandas scalars the wire format spells (a NaN among datetime labels is NaT, which the model treats as the NaN label it is spelled as)',
                'object identity (the `x is y` shortcut) is not modelled: every call decodes fresh objects; the shared np.nan object is generated (NF:nan)',
                'numbers are spelled exactly (ints of any size, floats that are multiples of 1/4 - 2**53 and its neighbours included); np.float32 scalars and arrays hold such values exactly',
-               'dict keys are distinct strings; pandas extension arrays and their pd.NA, datetime64 / timedelta64 units finer than ns (ps, fs, as: after C14-F9 such a duration equals only timedelta64s numpy calls equal, never a number - probed, not generated), out-of-bounds datetime64 / timedelta64, tz-aware timestamps, complex / Decimal NaN, None labels and Series names are outside the universe']
+               'dict keys are distinct strings; pandas extension arrays and their pd.NA, timedelta64 units finer than ns (ps, fs, as: after C14-F9 such a duration equals only timedelta64s numpy calls equal, never a number - probed, not generated; datetime64 in ps / fs / as IS generated since C14-F10, but not as an axis label), out-of-bounds datetime64 / timedelta64, tz-aware timestamps, complex / Decimal NaN, None labels and Series names are outside the universe']
 
 D = datetime.datetime
 BIG = 2 ** 53
